@@ -809,6 +809,11 @@ class SigmaRegularExpression(SigmaType):
                 if e is not None
             ]
         )
+        for part in self.regexp.s:
+            if isinstance(part, Placeholder):  # same rule as for strings: never emit placeholders
+                raise SigmaPlaceholderError(
+                    f"Attempt to convert unhandled placeholder '{part.name}' into query."
+                )
         regexp_str = str(self.regexp)
         pos = (
             [  # determine positions of matches in regular expression
